@@ -1416,6 +1416,7 @@ def get_frame_from_multiplexed_ipdu(pdu, target_frame, multiplex_translation, ea
         start_bit=int(selector_start.text, 0),
         size=int(selector_len.text, 0),
         is_little_endian=is_little_endian,
+        is_signed=is_signed,
         multiplex="Multiplexor")
 
     multiplexor.initial_value = 0
